@@ -401,6 +401,15 @@ fn c13_chain(depth: usize, max_len: u32) {
   if c != want_subs {
     e::fail(&format!("source-run-count{}", names), || format!("source ran {} times for {} subscriptions", c, want_subs));
   }
+  // every subscription owns its finalizer: each of them saw a terminal, so each ran it once
+  for (i, (op, _)) in chain.iter().enumerate() {
+    if *op == Op::Finalize {
+      let n = world::counter(10 + i);
+      if n != want_subs {
+        e::fail(&format!("finalizer-run-count{}", names), || format!("{} subscriptions terminated but the finalizer ran {} time(s)", want_subs, n));
+      }
+    }
+  }
   e::cover("c13-path-complete");
 }
 
